@@ -724,6 +724,10 @@ func (w *CliWorld) laneSend(l *laneState) {
 			w.Probes["response-trailers"]++
 		}
 		w.sim.Logf("srv>> lane%d stream %d %s block=%x parts=%d", l.idx, id, op.Kind, blk, len(parts))
+		if op.JunkFlags != 0 {
+			frames[0][4] |= op.JunkFlags
+			w.Probes["undefined-flags"]++
+		}
 		w.s2c.Inject(frames[0])
 		l.queue = frames[1:]
 		l.keepBlock = op.NoEndHdrs
@@ -752,6 +756,10 @@ func (w *CliWorld) laneSend(l *laneState) {
 		}
 		if op.Len == 0 {
 			w.Probes["data-empty"]++
+		}
+		if op.JunkFlags != 0 {
+			fb[4] |= op.JunkFlags
+			w.Probes["undefined-flags"]++
 		}
 		w.s2c.Inject(fb)
 		if op.EndStream {
